@@ -365,6 +365,9 @@ def gen_payload(rng, spec):
         return bytes(out[:n])
     if kind == "rand":
         return rng.randbytes(n)
+    if kind == "far":         # incompressible block followed by its copy: the only match is n/2 octets back (window probe)
+        r = rng.randbytes(n // 2)
+        return r + r
     if kind == "rep":         # one printable octet repeated (valid UTF-8, so it can travel as a text message)
         return bytes([rng.randrange(0x20, 0x7f)]) * n
     raise ValueError(kind)
